@@ -15,6 +15,7 @@ RULE = ('token strings: every concatenation of 1-4 (quick: 1-3 full + sampled 4)
 ANCHORS = ['pycaption:detect_format', 'pycaption.srt:SRTReader.detect', 'pycaption.scc:SCCReader.detect',
            'pycaption.webvtt:WebVTTReader.detect', 'pycaption.microdvd:MicroDVDReader.detect',
            'pycaption.sami:SAMIReader.detect', 'pycaption.dfxp.base:DFXPReader.detect']
+THOROUGH_SCALE = 5        # random budgets of the thorough tier are multiplied by this
 REQUIRE = {'strings_checked': 2000, 'detected_DFXPReader': 5, 'detected_MicroDVDReader': 5,
            'detected_WebVTTReader': 5, 'detected_SAMIReader': 5, 'detected_SRTReader': 5,
            'detected_SCCReader': 5, 'detected_None': 5, 'writer_outputs_read_back': 50,
